@@ -1,1 +1,171 @@
-(* stub *)
+(* C12.v — property C12: SLERP follows the shortest geodesic at constant speed; NaN gaps are filled along it.
+   Statements only.  p = (a,b,c,d), q = (w,x,y,z); qdot, qlin (s0*p + s1*q), nearer (the antipode of q nearer to p)
+   are defined in C12_math.v; C12_*_R are regenerated from /repo on every run. *)
+From Coq Require Import Reals List Lra Arith.
+From AhrsLib Require Import Base Rot.
+From AhrsModel Require Import C12_lists.
+From AhrsGen Require Import C12gen_R.
+From AhrsProps Require Import C12_math C12_gen C12_lists_thm C12_lists_R.
+Import ListNotations.
+Open Scope R_scope.
+
+(* ---- SLERP proper ------------------------------------------------------------------------ *)
+(* every interpolant is a unit quaternion: all four paths (sign flip x LERP/SLERP), every threshold < 1, every real weight *)
+Theorem C12_slerp_unit : forall a b c d w x y z t thr, unit4 a b c d -> unit4 w x y z -> thr < 1 ->
+  exists r, C12_slerp_thr_R a b c d w x y z t thr = Val r /\ length r = 4%nat /\ qnorm2 r = 1.
+Proof. intros a b c d w x y z t thr Hp Hq H. exact (gen_unit a b c d w x y z Hp Hq thr t H). Qed.
+Print Assumptions C12_slerp_unit.
+
+(* starts at the first endpoint, ends at the second or its antipode, whichever is nearer *)
+Theorem C12_slerp_endpoints : forall a b c d w x y z thr, unit4 a b c d -> unit4 w x y z -> thr < 1 ->
+  C12_slerp_thr_R a b c d w x y z 0 thr = Val [a;b;c;d] /\
+  C12_slerp_thr_R a b c d w x y z 1 thr = Val (nearer [a;b;c;d] [w;x;y;z]).
+Proof. intros a b c d w x y z thr Hp Hq H. exact (gen_endpoints a b c d w x y z Hp Hq thr H). Qed.
+Print Assumptions C12_slerp_endpoints.
+
+(* constant angular speed on the SLERP paths (|p.q| <= thr): the angle from p is t*theta0 and the angle to the nearer
+   antipode of q is (1-t)*theta0, theta0 = acos|p.q| *)
+Theorem C12_slerp_constant_speed : forall a b c d w x y z t thr, unit4 a b c d -> unit4 w x y z -> thr < 1 ->
+  Rabs (qdot [a;b;c;d] [w;x;y;z]) <= thr ->
+  exists r, C12_slerp_thr_R a b c d w x y z t thr = Val r /\
+            qdot [a;b;c;d] r = cos (acos (Rabs (qdot [a;b;c;d] [w;x;y;z])) * t) /\
+            qdot r (nearer [a;b;c;d] [w;x;y;z]) = cos (acos (Rabs (qdot [a;b;c;d] [w;x;y;z])) * (1 - t)).
+Proof. intros a b c d w x y z t thr Hp Hq H HD. exact (gen_speed a b c d w x y z Hp Hq thr t H HD). Qed.
+Print Assumptions C12_slerp_constant_speed.
+
+(* two interpolants of ONE call are (t-s)*theta0 apart, and a two-weight call returns the rows of the one-weight calls *)
+Theorem C12_slerp_two_weights : forall a b c d w x y z s t, unit4 a b c d -> unit4 w x y z ->
+  Rabs (qdot [a;b;c;d] [w;x;y;z]) <= 1999/2000 ->
+  exists r1 r2, C12_slerp2_R a b c d w x y z s t = Val (r1 ++ r2) /\
+                C12_slerp_R a b c d w x y z s = Val r1 /\ C12_slerp_R a b c d w x y z t = Val r2 /\
+                qdot r1 r2 = cos (acos (Rabs (qdot [a;b;c;d] [w;x;y;z])) * (t - s)).
+Proof. intros a b c d w x y z s t Hp Hq HD. exact (gen_two_weights a b c d w x y z Hp Hq s t HD). Qed.
+Print Assumptions C12_slerp_two_weights.
+
+(* minor arc: for weights in [0,1] the interpolant is a non-negative combination of p and the nearer antipode of q
+   (with unit norm and the angle law above this is the minor great arc), on every path *)
+Theorem C12_slerp_on_minor_arc : forall a b c d w x y z t thr, unit4 a b c d -> unit4 w x y z -> thr < 1 -> 0 <= t <= 1 ->
+  exists s0 s1, 0 <= s0 /\ 0 <= s1 /\
+    C12_slerp_thr_R a b c d w x y z t thr = Val (qlin s0 s1 [a;b;c;d] (nearer [a;b;c;d] [w;x;y;z])).
+Proof. intros a b c d w x y z t thr Hp Hq H Ht. exact (gen_minor_arc a b c d w x y z Hp Hq thr t H Ht). Qed.
+Print Assumptions C12_slerp_on_minor_arc.
+
+(* replacing an endpoint by its negative does not change the path (q -> -q: identical; p -> -p: every row negated,
+   the same rotations), whenever one antipode IS nearer (p.q <> 0); no norm hypothesis *)
+Theorem C12_slerp_antipode_invariant : forall a b c d w x y z t thr, qdot [a;b;c;d] [w;x;y;z] <> 0 ->
+  C12_slerp_thr_R a b c d (-w) (-x) (-y) (-z) t thr = C12_slerp_thr_R a b c d w x y z t thr /\
+  forall r, C12_slerp_thr_R a b c d w x y z t thr = Val r ->
+            C12_slerp_thr_R (-a) (-b) (-c) (-d) w x y z t thr = Val (qneg r) /\
+            C12_slerp_thr_R (-a) (-b) (-c) (-d) (-w) (-x) (-y) (-z) t thr = Val (qneg r).
+Proof. intros a b c d w x y z t thr H. exact (gen_antipode a b c d w x y z t thr H). Qed.
+Print Assumptions C12_slerp_antipode_invariant.
+(* on the tie p.q = 0 neither antipode is nearer: the code goes to q, resp. to -q, which are different paths; the guard is needed *)
+Theorem C12_slerp_antipode_tie : C12_slerp_R 1 0 0 0 (-0) (-1) (-0) (-0) (1/2) <> C12_slerp_R 1 0 0 0 0 1 0 0 (1/2).
+Proof. exact gen_tie_differs. Qed.
+Print Assumptions C12_slerp_antipode_tie.
+
+(* the default threshold, and the second copy in ahrs.common.orientation, are the same function *)
+Theorem C12_slerp_copies_agree : forall a b c d w x y z t,
+  C12_slerp_R a b c d w x y z t = C12_slerp_thr_R a b c d w x y z t (1999/2000) /\
+  C12_oslerp_R a b c d w x y z t = C12_slerp_R a b c d w x y z t.
+Proof. intros. exact (gen_default_threshold a b c d w x y z t). Qed.
+Print Assumptions C12_slerp_copies_agree.
+
+(* AQUA's interpolation with the identity: unit; identity at 0, q at 1; constant speed and minor arc on its SLERP branch *)
+Theorem C12_slerp_I : forall w x y z t thr, unit4 w x y z -> -1 < w -> thr < 1 -> 0 <= t <= 1 ->
+  (exists r, C12_slerp_I_R w x y z t thr = Val r /\ length r = 4%nat /\ qnorm2 r = 1 /\
+            (w <= thr -> e r 0 = cos (acos w * t) /\ exists s0 s1, 0 <= s0 /\ 0 <= s1 /\ r = qlin s0 s1 qone [w;x;y;z])) /\
+  C12_slerp_I_R w x y z 0 thr = Val qone /\ C12_slerp_I_R w x y z 1 thr = Val [w;x;y;z].
+Proof.
+  intros w x y z t thr Hq Hw H Ht. split; [exact (gen_slerp_I w x y z t thr Hq Hw H Ht)|exact (gen_slerp_I_endpoints w x y z thr Hq Hw H)].
+Qed.
+Print Assumptions C12_slerp_I.
+
+Example C12_slerp_nonvacuous :
+  unit4 1 0 0 0 /\ unit4 (3/5) (4/5) 0 0 /\ Rabs (qdot [1;0;0;0] [3/5;4/5;0;0]) <= 1999/2000 /\
+  unit4 (-3/5) 0 (4/5) 0 /\ qdot [1;0;0;0] [-3/5;0;4/5;0] < 0.
+Proof. exact slerp_guard_inhabited. Qed.
+
+(* ---- the list bookkeeping (hand models of coq/model/C12_lists.v, tied to the code by correspondence) ---------- *)
+(* get_nan_intervals returns exactly the maximal runs of NaN rows, in increasing order; none when there is no NaN row *)
+Theorem C12_nan_intervals_are_maximal_runs : forall (m : list bool) (s e : nat),
+  (In (s, e) (get_nan_intervals m) <->
+     (s <= e)%nat /\ (forall i, (s <= i <= e)%nat -> nth i m false = true) /\
+     (forall j, S j = s -> nth j m false = false) /\ nth (S e) m false = false) /\
+  inc_from 0 (map fst (get_nan_intervals m)) /\
+  ((forall i, nth i m false = false) -> get_nan_intervals m = []).
+Proof.
+  intros m s e. split; [exact (nan_intervals_are_maximal_runs m s e)|].
+  split; [exact (nan_intervals_increasing m)|exact (nan_intervals_no_nan m)].
+Qed.
+Print Assumptions C12_nan_intervals_are_maximal_runs.
+
+(* remove_jumps / q_correct: row i is multiplied by (-1)^(number of jumps at or before i) — the same rotations —,
+   for every length and every jump pattern; the sign changes exactly at the jumps *)
+Theorem C12_remove_jumps_spec : forall (rows : list (option quat)) (i : nat), (i < length rows)%nat ->
+  length (remove_jumpsR rows) = length rows /\
+  nth i (remove_jumpsR rows) None = sgn quat negq (flipped quat jumpq rows i) (nth i rows None) /\
+  flipped quat jumpq rows 0 = false /\
+  flipped quat jumpq rows (S i) = xorb (flipped quat jumpq rows i) (nth i (jump_flags jumpq rows) false).
+Proof.
+  intros rows i Hi. split; [exact (remove_jumps_length quat negq jumpq rows)|].
+  split; [exact (remove_jumps_spec quat negq jumpq negq_invol rows i Hi)|].
+  split; [exact (flipped_0 quat jumpq rows)|exact (flipped_succ quat jumpq rows i)].
+Qed.
+Print Assumptions C12_remove_jumps_spec.
+
+(* ... and no jump remains, when the rows are unit and every jumping consecutive pair is within 60 degrees of antipodal
+   (a.b <= -1/2; a pair with -1/2 < a.b < 1/2 is flagged as a jump by the |diff| > 1 test although no sign flip explains it) *)
+Theorem C12_remove_jumps_no_jump : forall rows : list (option quat),
+  (forall i a b, nth i rows None = Some a -> nth (S i) rows None = Some b -> unitq4 a /\ unitq4 b /\
+                 (jumpq a b = true -> qdot (ql a) (ql b) <= -1/2)) ->
+  forall i, nth i (jump_flags jumpq (remove_jumpsR rows)) false = false.
+Proof.
+  intros rows H. apply (remove_jumps_no_jump quat negq jumpq negq_invol jumpq_neg_both).
+  intros i a b Ea Eb J. destruct (H i a b Ea Eb) as (Ua & Ub & K). apply antipodal_close; [exact Ua|exact Ub|exact (K J)].
+Qed.
+Print Assumptions C12_remove_jumps_no_jump.
+
+(* slerp_nan: defined for every array whose first and last rows are valid (every position and length of interior runs);
+   valid rows keep their value up to the sign the jump removal gives them; an interior run of L NaN rows between the valid rows
+   a (row s') and b (row e+1) becomes slerp(a', b', k/(L+1)), k = 1..L, computed by the REGENERATED slerp on the
+   jump-corrected neighbours *)
+Theorem C12_slerp_nan_spec : forall (rows out : list (option quat)), slerp_nanR rows = Some out ->
+  length out = length rows /\
+  (forall i v, (i < length rows)%nat -> nth i rows None = Some v ->
+               nth i out None = sgn quat negq (flipped quat jumpq rows i) (Some v)) /\
+  (forall s' e a b, maxrun (nan_mask rows) (S s') e -> nth s' rows None = Some a -> nth (S e) rows None = Some b ->
+     forall k, (1 <= k <= e - s')%nat ->
+     exists a' b', sgn quat negq (flipped quat jumpq rows s') (Some a) = Some a' /\
+                   sgn quat negq (flipped quat jumpq rows (S e)) (Some b) = Some b' /\
+                   nth (s' + k) out None = Some (interpq a' b' k (S (e - s')))).
+Proof. intros rows out H. exact (slerp_nan_spec quat negq jumpq interpq negq_invol rows out H). Qed.
+Print Assumptions C12_slerp_nan_spec.
+
+Theorem C12_slerp_nan_defined : forall (rows : list (option quat)) v0 v1,
+  nth 0 rows None = Some v0 -> nth (pred (length rows)) rows None = Some v1 -> exists out, slerp_nanR rows = Some out.
+Proof.
+  intros rows v0 v1 H0 H1. unfold slerp_nanR, slerp_nan.
+  assert (L : (0 < length rows)%nat) by (destruct rows; [discriminate H0|simpl; apply Nat.lt_0_succ]).
+  pose proof (remove_jumps_spec quat negq jumpq negq_invol rows 0 L) as E0. rewrite H0 in E0.
+  assert (L1 : (pred (length rows) < length rows)%nat) by (destruct rows; [inversion L|simpl; apply Nat.lt_succ_diag_r]).
+  pose proof (remove_jumps_spec quat negq jumpq negq_invol rows _ L1) as E1. rewrite H1 in E1.
+  rewrite <- (remove_jumps_length quat negq jumpq rows) in E1 at 1.
+  destruct (flipped quat jumpq rows 0), (flipped quat jumpq rows (pred (length rows))); simpl in E0, E1;
+    eapply fill_nan_defined; eassumption.
+Qed.
+Print Assumptions C12_slerp_nan_defined.
+
+(* each filled row is a unit quaternion, at angle (k/(L+1))*theta0 from its left neighbour on the SLERP path *)
+Theorem C12_fill_on_geodesic : forall a b k n, unitq4 a -> unitq4 b ->
+  unitq4 (interpq a b k n) /\
+  (Rabs (qdot (ql a) (ql b)) <= 1999/2000 ->
+   qdot (ql a) (ql (interpq a b k n)) = cos (acos (Rabs (qdot (ql a) (ql b))) * (INR k / INR n))).
+Proof. intros a b k n Ha Hb. split; [exact (interpq_unit a b k n Ha Hb)|exact (interpq_geodesic a b k n Ha Hb)]. Qed.
+Print Assumptions C12_fill_on_geodesic.
+
+Example C12_lists_nonvacuous :
+  get_nan_intervals [false; true; false; true; true; true; false; false; true; true] = [(1, 1); (3, 5); (8, 9)]%nat /\
+  get_nan_intervals [false; false; false] = [] /\
+  maxrun [false; true; true; false] 1 2.
+Proof. exact lists_nonvacuous. Qed.
